@@ -675,4 +675,92 @@ example : outcome (evalI 6 (.forE (.int 0) (.ident "nosuch"))) {} = .ok .null :=
 example : outcome (evalI 6 (.forE (.bool false) (.int 7))) {} = .ok .null := rfl
 example : outcome (evalI 1 (.int 7)) {} = .ok (.int 7) ∧ (Obj.int 7).stops = false := ⟨rfl, rfl⟩
 
+/-! ## 10. comparison of integers, `+` on strings and arrays -/
+
+theorem C01.cmpInt64_spec (a b : Int64) :
+    (cmpInt64 a b == -1) = decide (a < b) ∧ (cmpInt64 a b == 1) = decide (b < a)
+    ∧ (cmpInt64 a b == 0) = decide (a = b)
+    ∧ decide (cmpInt64 a b ≤ 0) = decide (a ≤ b) ∧ decide (cmpInt64 a b ≥ 0) = decide (b ≤ a) := by
+  unfold cmpInt64
+  have e : a = b ↔ a.toInt = b.toInt := ⟨fun h => h ▸ rfl, Int64.toInt_inj.mp⟩
+  by_cases h1 : a < b
+  · have h1' := Int64.lt_iff_toInt_lt.mp h1
+    have n2 : ¬ b < a := fun h => by have := Int64.lt_iff_toInt_lt.mp h; omega
+    have n3 : ¬ a = b := fun h => by have := e.mp h; omega
+    have p4 : a ≤ b := Int64.le_iff_toInt_le.mpr (by omega)
+    have n5 : ¬ b ≤ a := fun h => by have := Int64.le_iff_toInt_le.mp h; omega
+    simp [h1, n2, n3, p4, n5]
+  · by_cases h2 : a > b
+    · have h2' := Int64.lt_iff_toInt_lt.mp h2
+      have n3 : ¬ a = b := fun h => by have := e.mp h; omega
+      have n4 : ¬ a ≤ b := fun h => by have := Int64.le_iff_toInt_le.mp h; omega
+      have p5 : b ≤ a := Int64.le_iff_toInt_le.mpr (by omega)
+      simp [h1, h2, n3, n4, p5]
+    · have n1 : ¬ a.toInt < b.toInt := fun h => h1 (Int64.lt_iff_toInt_lt.mpr h)
+      have n2 : ¬ b.toInt < a.toInt := fun h => h2 (Int64.lt_iff_toInt_lt.mpr h)
+      have p3 : a = b := e.mpr (by omega)
+      subst p3
+      simp [h1]
+
+/-- `< > <= >= == !=` on two integers: booleans that agree with the order of `Int64`; no state change -/
+theorem C01.int_compare (a b : Int64) (st : St) :
+    outcome (evalInfixOp "LT" (.int a) (.int b)) st = .ok (.bool (decide (a < b)))
+    ∧ outcome (evalInfixOp "GT" (.int a) (.int b)) st = .ok (.bool (decide (b < a)))
+    ∧ outcome (evalInfixOp "LTEQ" (.int a) (.int b)) st = .ok (.bool (decide (a ≤ b)))
+    ∧ outcome (evalInfixOp "GTEQ" (.int a) (.int b)) st = .ok (.bool (decide (b ≤ a)))
+    ∧ outcome (evalInfixOp "EQ" (.int a) (.int b)) st = .ok (.bool (decide (a = b)))
+    ∧ outcome (evalInfixOp "NOTEQ" (.int a) (.int b)) st = .ok (.bool (!decide (a = b)))
+    ∧ (∀ op, op ∈ ["LT", "GT", "LTEQ", "GTEQ", "EQ", "NOTEQ"] →
+        stateAfter (evalInfixOp op (.int a) (.int b)) st = st) := by
+  obtain ⟨h1, h2, h3, h4, h5⟩ := C01.cmpInt64_spec a b
+  refine ⟨?_, ?_, ?_, ?_, ?_, ?_, ?_⟩
+  · rw [← h1]; rfl
+  · rw [← h2]; rfl
+  · rw [← h4]; rfl
+  · rw [← h5]; rfl
+  · rw [← h3]; rfl
+  · rw [← h3]; rfl
+  · intro op hop
+    simp only [List.mem_cons, List.mem_nil_iff] at hop
+    rcases hop with h | h | h | h | h | h | h <;> first | (subst h; rfl) | cases h
+
+/-- string `+` is concatenation (below the model's allocation bound); no state change -/
+theorem C01.string_concat (l r : Grol.Wire.Bytes) (st : St)
+    (hsz : ((l.length + r.length : Nat) : Int) / 16 ≤ sizeLimit) :
+    outcome (evalInfixOp "PLUS" (.str l) (.str r)) st = .ok (.str (l ++ r))
+    ∧ stateAfter (evalInfixOp "PLUS" (.str l) (.str r)) st = st := by
+  have h : evalInfixOp "PLUS" (.str l) (.str r) = (do
+      mustBeOk (((l.length + r.length : Nat) : Int) / 16)
+      pure (.str (l ++ r))) := rfl
+  have hm : mustBeOk (((l.length + r.length : Nat) : Int) / 16) = pure () := by
+    unfold mustBeOk
+    rw [if_neg (by omega)]
+  rw [h, hm]
+  exact ⟨rfl, rfl⟩
+
+/-- array `+` array is the concatenation, array `+` other value appends it; the result is a NEW value: the
+state — hence every binding that held the left operand — is unchanged -/
+theorem C01.array_append (l r : List Obj) (v : Obj) (st : St)
+    (hsz : ((l.length : Int) + r.length) ≤ sizeLimit)
+    (hv : (∀ els, v ≠ .array els) ∧ (∀ e n, v ≠ .ref e n) ∧ (∀ b, v ≠ .float b)) :
+    (outcome (evalInfixOp "PLUS" (.array l) (.array r)) st = .ok (.array (l ++ r))
+      ∧ stateAfter (evalInfixOp "PLUS" (.array l) (.array r)) st = st)
+    ∧ (outcome (evalInfixOp "PLUS" (.array l) v) st = .ok (.array (l ++ [v]))
+      ∧ stateAfter (evalInfixOp "PLUS" (.array l) v) st = st) := by
+  constructor
+  · have h : evalInfixOp "PLUS" (.array l) (.array r) = (do
+        mustBeOk ((l.length : Int) + r.length)
+        pure (newArray (l ++ r))) := rfl
+    have hm : mustBeOk ((l.length : Int) + r.length) = pure () := by
+      unfold mustBeOk
+      rw [if_neg (by omega)]
+    rw [h, hm]
+    exact ⟨rfl, rfl⟩
+  · obtain ⟨h1, h2, h3⟩ := hv
+    cases v <;> first | exact ⟨rfl, rfl⟩ | exact absurd rfl (h1 _) | exact absurd rfl (h2 _ _) | exact absurd rfl (h3 _)
+
+example : outcome (evalInfixOp "LT" (.int 2) (.int 3)) {} = .ok (.bool true) := rfl
+example : outcome (evalInfixOp "PLUS" (.str [97]) (.str [98])) {} = .ok (.str [97, 98]) := rfl
+example : outcome (evalInfixOp "PLUS" (.array [.int 1]) (.int 2)) {} = .ok (.array [.int 1, .int 2]) := rfl
+
 end Grol.E
